@@ -338,3 +338,81 @@ func (v *vc) waitWithoutLocks(fr *frame, st *state, site string) {
 		v.oblige(st, "guard", "waits_for_goroutines_without_holding_"+strings.TrimPrefix(g, balPrefix), site, fmt.Sprintf("(= %s %s)", st.ghost[g], e0), []string{"C19"})
 	}
 }
+
+// receiverLockSummary: the mutex places (ghost names) a method takes on its own receiver - directly or through
+// methods it calls on the same receiver. Memoised on the engine.
+func (e *engine) receiverLockSummary(fn *ssa.Function, busy map[*ssa.Function]bool) map[string]bool {
+	e.mu.Lock()
+	if e.recvLocks == nil {
+		e.recvLocks = map[*ssa.Function]map[string]bool{}
+	}
+	if s, ok := e.recvLocks[fn]; ok {
+		e.mu.Unlock()
+		return s
+	}
+	e.mu.Unlock()
+	out := map[string]bool{}
+	if fn == nil || fn.Signature.Recv() == nil || len(fn.Params) == 0 || fn.Blocks == nil || busy[fn] {
+		return out
+	}
+	busy[fn] = true
+	recv := ssa.Value(fn.Params[0])
+	for _, b := range fn.Blocks {
+		for _, in := range b.Instrs {
+			ci, ok := in.(ssa.CallInstruction)
+			if !ok {
+				continue
+			}
+			if _, isGo := in.(*ssa.Go); isGo {
+				continue
+			}
+			c := ci.Common()
+			if lc := syncLockCallOf(in); lc != nil {
+				name := c.Value.(*ssa.Function).String()
+				if strings.HasSuffix(name, ".Lock") || strings.HasSuffix(name, ".RLock") {
+					if fa, ok := lc.Args[0].(*ssa.FieldAddr); ok && fa.X == recv {
+						out[balGhostName(lc.Args[0])] = true
+					}
+				}
+				continue
+			}
+			if callee, ok := c.Value.(*ssa.Function); ok && !c.IsInvoke() && len(c.Args) > 0 && c.Args[0] == recv && callee.Signature.Recv() != nil {
+				for g := range e.receiverLockSummary(callee, busy) {
+					out[g] = true
+				}
+			}
+		}
+	}
+	delete(busy, fn)
+	e.mu.Lock()
+	e.recvLocks[fn] = out
+	e.mu.Unlock()
+	return out
+}
+
+// checkNoRelock: a function that has taken x.mu (in either mode) and still holds it calls a method on x that
+// takes x.mu again. With the write lock held that blocks at once; with the read lock held it blocks as soon as
+// another goroutine asks for the write lock in between (sync.RWMutex forbids recursive read locking for that
+// reason) - the pool's put() / Close() pair.
+func (v *vc) checkNoRelock(fr *frame, st *state, callee *ssa.Function, c *ssa.CallCommon, site string) {
+	if v.fc == nil || !v.fc.sweep || !fr.top || callee == nil || callee.Signature.Recv() == nil || len(c.Args) == 0 || v.entry == nil {
+		return
+	}
+	sum := v.eng.receiverLockSummary(callee, map[*ssa.Function]bool{})
+	if len(sum) == 0 {
+		return
+	}
+	for _, g := range sortedKeys(sum) {
+		cur, ok := st.ghost[g]
+		if !ok {
+			continue
+		}
+		e0, ok := v.entry.ghost[g]
+		if !ok || e0 == cur {
+			continue
+		}
+		key := v.balRef(fr, st, c.Args[0])
+		v.oblige(st, "guard", "does_not_take_"+strings.TrimPrefix(g, balPrefix)+"_again_through_"+sanitizeGhost(callee.Name()), site,
+			fmt.Sprintf("(= (select %s %s) (select %s %s))", cur, key, e0, key), []string{"C19"})
+	}
+}
